@@ -35,6 +35,8 @@ def import_votekit():
     import votekit.cvr_loaders  # noqa
     import votekit.utils  # noqa
     import votekit.pref_interval  # noqa
+    import votekit.metrics  # noqa
+    import votekit.ballot_generator  # noqa  (must be loaded before any World.enter so its globals get stubbed)
     f = os.path.realpath(votekit.__file__)
     if not f.startswith(os.path.realpath(SRC) + os.sep):
         raise HarnessError(f"wrong votekit imported: {f}")
@@ -158,12 +160,13 @@ class RandomStub:
         ctx = self.ctx
         self._mark = getattr(ctx, "real_choices", 0)
         pop = list(population)
+        given_weights = weights is not None
         if weights is None:
             weights = [1] * len(pop)
         weights = list(weights)
-        if len(weights) != len(pop):
+        if weights is not None and len(weights) != len(pop):
             raise ValueError("The number of weights does not match the population")
-        if not pop:
+        if not pop and (given_weights or k > 0):
             raise IndexError("list index out of range")  # what CPython's random.choices does
         out = []
         for _ in range(k):
